@@ -38,6 +38,9 @@ def histories(tier):
     large = [("open", {}), ("w", 0, 30000), ("w", 30000, 30000), ("w", 70000, 20000), ("w", 95000, 1000), ("close",)]
     for mode in ("cont", "gapped"):
         out.append((dict(rf.Cfg(n=n, d=d, fc=fc, sc=sc, start=k0, **U.MODES[mode])), large, "%s large_files_io_inside_write" % mode))
+    # the same with complex samples (the library writes complex data through a separate H5Dwrite call)
+    out.append((dict(rf.Cfg(n=n, d=d, fc=fc, sc=sc, start=k0, kind="i", size=4, cplx=True, **U.MODES["cont"])), large,
+                "cont complex large_files_io_inside_write"))
     # 100 samples per file filled by contiguous calls of 35: the chunked dataset of an open file is extended by
     # several calls, H5Dclose writes the raw chunks and the final H5Fclose has only metadata left to flush
     n, d, fc, sc = 100, 1, 1000, 2
